@@ -53,6 +53,17 @@ def log(*a):
     print(*a, flush=True)
 
 
+def log_line(text):
+    """a protocol line (VIOLATION / KNOWN-FINDING) must start at column 0 even if the implementation under test (or a
+    library) wrote to the terminal without a final newline: flush both streams and start a fresh line first"""
+    try:
+        sys.stderr.flush()
+    except Exception:
+        pass
+    sys.stdout.write("\n" + text + "\n")
+    sys.stdout.flush()
+
+
 class CheckFailure(Exception):
     pass
 
@@ -513,7 +524,7 @@ def report(ctx, candidates):
                 match = k
         if match is not None:
             if sig not in seen_known:
-                log("KNOWN-FINDING: property=%s %s" % (ctx.prop, match["what"]))
+                log_line("KNOWN-FINDING: property=%s %s" % (ctx.prop, match["what"]))
                 seen_known.add(sig)
                 ctx.known.append(sig)
             continue
@@ -527,7 +538,7 @@ def report(ctx, candidates):
         with open(path, "w") as f:
             json.dump(body, f, indent=1, default=str)
         tail = "" if c.get("failing_input", True) else " no-failing-input-found"
-        log("VIOLATION property=%s replay=%s%s" % (ctx.prop, path, tail))
+        log_line("VIOLATION property=%s replay=%s%s" % (ctx.prop, path, tail))
         ctx.violations.append(path)
         new += 1
     return new
